@@ -27,6 +27,7 @@ import (
 	"sync"
 	"time"
 
+	remoteexecution "github.com/bazelbuild/remote-apis/build/bazel/remote/execution/v2"
 	"github.com/buildbarn/bb-storage/pkg/blobstore/buffer"
 	"github.com/buildbarn/bb-storage/pkg/blobstore/local"
 	"github.com/buildbarn/bb-storage/pkg/digest"
@@ -153,8 +154,127 @@ func (p *parker) disarm() {
 	p.mu.Unlock()
 }
 
+// drainStore lets the syncer goroutines of a store finish everything they can
+// do (settle, advance the virtual clock to the next timer, repeat).
+func drainStore(w *run.Worker, s *asm.Store) {
+	for i := 0; i < 200; i++ {
+		if !run.Settle(20 * time.Second) {
+			w.Inconclusive("settle timed out while draining the previous lifetime")
+			return
+		}
+		d, ok := s.M.Clock.NextFire()
+		if !ok {
+			return
+		}
+		s.M.Clock.Advance(d)
+	}
+}
+
+// acRead: the Protobuf read path (AC-style factory: the whole message is read
+// from the block at once) under device READ errors. "Buffers are released
+// once ... also when a read fails midway": after every failed read the exact
+// reference-count equation must hold and every reader must have been closed.
+func acRead(ctx context.Context, w *run.Worker, c *run.Case) {
+	r := c.Rng
+	cfg := asm.GenConfig(r, false)
+	cfg.InMemoryBlocks, cfg.Hierarchical = false, false
+	if cfg.Sector == 1 {
+		cfg.Sector = 16
+	}
+	if cfg.BlockSectors < 8 {
+		cfg.BlockSectors = 8
+	}
+	cfg.Factory = []string{"ac", "ac", "cas", "raw"}[r.Intn(4)]
+	cfg.Label = "c04"
+	cfg.Spare = r.Range(1, 2)
+	cfg.Records = r.Range(300, 900)
+	cfg.GetAttempts, cfg.PutAttempts = 16, 64
+	s, err := asm.Build(cfg, asm.NewMedia(cfg))
+	if err != nil {
+		panic(err)
+	}
+	e := &env{park: &parker{}, c: c, w: w, s: s, cfg: cfg, r: r, ctx: ctx, popSeq: map[int64]int64{}, heldRefs: map[int64]int{}, sigParts: map[string]bool{}, inst: "ac"}
+	c.Desc("acread %v", cfg)
+	ac := cfg.Factory == "ac"
+	type acObj struct {
+		d    digest.Digest
+		msg  *remoteexecution.ActionResult
+		data []byte
+	}
+	var objs []*acObj
+	block := int(cfg.BlockBytes())
+	newObj := func() *acObj {
+		e.id++
+		payload := gen.UniqueBlob(uint64(c.Index)<<20|uint64(w.Index)<<44|1<<57, uint64(e.id), r.Range(1, block/3))
+		if !ac {
+			return &acObj{d: gen.SHA256Digest(e.inst, payload), data: payload}
+		}
+		return &acObj{d: gen.SHA256Digest(e.inst, gen.UniqueBlob(99, uint64(e.id)+uint64(c.Index)<<24, 20)), msg: &remoteexecution.ActionResult{StdoutRaw: payload, ExitCode: int32(e.id)}}
+	}
+	put := func(o *acObj) error {
+		if ac {
+			return s.BA.Put(ctx, o.d, buffer.NewProtoBufferFromProto(o.msg, buffer.UserProvided))
+		}
+		u := &asm.Upload{Data: o.data, Chunks: r.Chunking(len(o.data), false)}
+		return s.BA.Put(ctx, o.d, u.CASBuffer(o.d))
+	}
+	get := func(o *acObj) error {
+		if ac {
+			m, err := s.BA.Get(ctx, o.d).ToProto(&remoteexecution.ActionResult{}, 1<<26)
+			if err == nil && !proto.Equal(m, o.msg) {
+				c.Violation("localstore.Get:wrong-bytes", "an AC-style read returned another message")
+			}
+			return err
+		}
+		got, err := asm.GetBytes(ctx, s.BA, o.d)
+		if err == nil && string(got) != string(o.data) {
+			c.Violation("localstore.Get:wrong-bytes", "Get returned wrong bytes")
+		}
+		return err
+	}
+	sig := ""
+	for st := r.Range(15, 45); st > 0; st-- {
+		switch x := r.Intn(10); {
+		case x < 4 || len(objs) == 0:
+			o := newObj()
+			if put(o) == nil {
+				objs = append(objs, o)
+			}
+			sig += "P"
+		case x < 6:
+			get(objs[r.Intn(len(objs))])
+			sig += "G"
+		default:
+			// a read during which the n-th device read fails
+			o := objs[r.Intn(len(objs))]
+			rd, _, _ := s.M.Blocks.Counts()
+			s.M.Blocks.AddFault(sim.Fault{Kind: "read", Nth: rd + int64(r.Range(1, 2)), Err: status.Error(codes.Internal, "injected read error")})
+			err := get(o)
+			s.M.Blocks.ClearFaults()
+			w.Count("faults_devread", 1)
+			if err != nil && !asm.IsNotFound(err) {
+				w.Count("reads_failed_by_device_read_error", 1)
+				e.nontriv = true
+			}
+			sig += "F"
+		}
+		e.quiescent(fmt.Sprintf("acread step (%s)", sig))
+	}
+	fails := 0
+	for k := 0; k < cfg.BlockCount()+2; k++ {
+		if put(newObj()) != nil {
+			fails++
+		}
+	}
+	if fails > 0 {
+		c.Violation("blockAllocator:capacity-permanently-lost", "after reads that failed with device read errors, %d of %d uploads failed at the end of the history (volatile store, nothing held)", fails, cfg.BlockCount()+2)
+	}
+	w.Distinct("acread|" + cfg.String() + "|" + sig)
+}
+
 func body(w *run.Worker) {
 	ctx := context.Background()
+	w.Cases("acread", w.N(120, 4000), func(c *run.Case) { acRead(ctx, w, c) })
 	w.Cases("hist", w.N(240, 12000), func(c *run.Case) {
 		r := c.Rng
 		cfg := asm.GenConfig(r, r.Bool())
@@ -173,6 +293,38 @@ func body(w *run.Worker) {
 			cfg.GetAttempts, cfg.PutAttempts = 16, 64
 		}
 		media := asm.NewMedia(cfg)
+		restored := false
+		if cfg.Persistent && r.Chance(1, 3) {
+			// A previous lifetime (uploads over a few blocks, commits,
+			// graceful shutdown): the history proper then runs on a store
+			// whose block list and allocator were RESTORED from that state.
+			s0, err := asm.Build(cfg, media)
+			if err != nil {
+				panic(err)
+			}
+			s0.StartSyncers()
+			blk := int(cfg.BlockBytes())
+			for i := r.Range(2, 3*cfg.BlockCount()); i > 0; i-- {
+				data := gen.UniqueBlob(uint64(c.Index)<<20|uint64(w.Index)<<44|1<<58, uint64(i), r.Range(1, blk/2))
+				d := gen.SHA256Digest("", data)
+				u := &asm.Upload{Data: data}
+				s0.BA.Put(ctx, d, u.CASBuffer(d))
+				if r.Chance(1, 3) {
+					drainStore(w, s0)
+				}
+			}
+			drainStore(w, s0)
+			s0.Shutdown()
+			drainStore(w, s0)
+			j := media.J
+			k := j.Len()
+			media = asm.NewMediaFrom(cfg,
+				sim.ImageAt(j, "blocks", media.BlocksInit, k, true, cfg.Sector, sim.KeepAll),
+				sim.ImageAt(j, "index", media.IndexInit, k, false, 0, sim.KeepAll),
+				sim.DirImageAt(j, media.DirInit, k, sim.DirChoice{VolatilePrefix: 1 << 20, UnsyncedData: 1}))
+			restored = true
+			w.Count("restored_lifetimes", 1)
+		}
 		park := &parker{}
 		var gate *asm.Gate
 		media.Blocks.Hook = func(kind string, off int64, n int) {
@@ -222,9 +374,12 @@ func body(w *run.Worker) {
 			}
 		}
 		e := &env{park: park, c: c, w: w, s: s, cfg: cfg, r: r, ctx: ctx, popSeq: map[int64]int64{}, heldRefs: map[int64]int{}, sigParts: map[string]bool{}, inst: []string{"", "t", "t/u"}[r.Intn(3)]}
-		c.Desc("%v", cfg)
+		c.Desc("%v restored=%v", cfg, restored)
 		if c.Index == 0 {
 			w.Sample(map[string]any{"config": cfg.String()})
+		}
+		if restored {
+			e.sigParts["restored"] = true
 		}
 		s.StartSyncers()
 		e.run()
@@ -292,6 +447,9 @@ func (e *env) scanEvents() {
 					delete(e.popSeq, off)
 				}
 			}
+		case "alloc.newblockat":
+			// a block restored from the persistent state (in list order)
+			e.listIDs = append(e.listIDs, ev.A)
 		case "bl.popfront":
 			if len(e.listIDs) == 0 {
 				e.c.Violation("harness:list-mirror-underflow", "popfront with an empty mirror")
